@@ -29,7 +29,7 @@ C1 = {'list': (S.CList, lambda c: typing.List[c]), 'tuplev': (S.CTuple, lambda c
       'mseq': (S.CList, lambda c: cabc.MutableSequence[c])}
 C2 = {'dict': (S.CDict, lambda k, v: typing.Dict[k, v]), 'map': (S.CMap, lambda k, v: cabc.Mapping[k, v]),
       'ddict': (S.CDefaultDict, lambda k, v: typing.DefaultDict[k, v]), 'odict': (S.COrderedDict, lambda k, v: typing.OrderedDict[k, v])}
-LEAF = {'int': (int, 7, 's'), 'str': (str, 's', 7)}
+LEAF = {'int': (int, 7, 's'), 'str': (str, 's', 7), 'obj': (object, 7, 7), 'any': (typing.Any, 's', 's')}      # (hint, conforming, violating); obj / any cannot be violated
 
 
 def hint_of(sh):
@@ -61,6 +61,25 @@ def levels_of(sh):
     if tag == 'opt':
         return levels_of(sh[1])
     return 0
+
+
+def mapping_labels(sh, path='L0'):
+    """labels (as assigned by build) of the levels that are mappings: one key *and* its value may be read there"""
+    if isinstance(sh, str):
+        return set()
+    tag = sh[0]
+    if tag in C1:
+        return mapping_labels(sh[1], path + '.i')
+    if tag in C2:
+        return {path} | mapping_labels(sh[1], path + '.k') | mapping_labels(sh[2], path + '.v')
+    if tag == 'tuplef':
+        out = set()
+        for j, c in enumerate(sh[1:]):
+            out |= mapping_labels(c, f'{path}.s{j}')
+        return out
+    if tag == 'opt':
+        return mapping_labels(sh[1], path)
+    return set()
 
 
 def build(sh, n, badness, path='L0', top=True, lvl=0, big=None):
@@ -148,6 +167,10 @@ def shapes(tier):
             out.append((m, 'str', (inner, 'int') if inner != 'dict' else ('dict', 'str', 'int')))
     out += [('list', ('list', ('list', 'int'))), ('dict', 'str', ('list', ('dict', 'str', 'int'))), ('opt', ('list', 'int')),
             ('list', ('opt', ('list', 'int')))]
+    # ignorable key or value hints (the mapping is still one level; explaining a rejection must not materialise it)
+    out += [('dict', 'obj', 'int'), ('map', 'any', 'int'), ('dict', 'str', 'obj'), ('dict', 'any', ('list', 'str')), ('list', ('map', 'obj', 'int')),
+            ('odict', 'obj', 'int'), ('map', 'obj', ('dict', 'any', 'int')), ('list', 'obj'), ('list', ('opt', ('dict', 'str', 'int'))),
+            ('dict', 'str', ('opt', ('list', 'int')))]
     # a conforming container beside an offender
     out += [('tuplef', ('list', 'int'), 'str'), ('tuplef', 'str', ('list', 'int')), ('tuplef', ('dict', 'str', 'int'), 'str'),
             ('tuplef', ('seq', 'int'), ('list', 'str')), ('tuplef', ('list', ('list', 'int')), 'str'), ('tuplef', ('coll', 'int'), 'int', ('deque', 'str')),
@@ -190,6 +213,7 @@ def run_shape(idx):
     with warnings.catch_warnings():
         warnings.simplefilter('ignore')
         h = hint_of(sh)
+        maplabels = mapping_labels(sh)
         f = drive.make_param_only(h, _STATE['conf'])
         for fill in fillings(sh):
             for r in (0, 1, 5):
@@ -224,10 +248,9 @@ def run_shape(idx):
                         if entry == 'is_bearable':
                             rp = reads_per_level(vec)
                             for label, c in rp.items():
-                                mapping_level = any(lab == label and m in ('keys', 'values', 'items', 'keys.__iter__', 'values.__iter__', 'items.__iter__') for (lab, m), _ in vec)
-                                bound = 2 if mapping_level else 1
-                                # a level below a mapping/sequence may legitimately be visited once per parent visit: still constant
-                                if c > bound * 2:
+                                # "at most one item, or one key and its value, per container nesting level reached"
+                                bound = 2 if label in maplabels else 1
+                                if c > bound:
                                     out['violations'].append((f'too-many-reads:is_bearable:{sh!r}', f'is_bearable read {c} items at level {label} (n = {n}, filling {fill}, draw {r}) for shape {sh!r}: {dict(rp)}', {'shape': repr(sh), 'n': n, 'fill': repr(fill)}))
                 for (entry, verdict), runs in groups.items():
                     out['groups'] += 1
